@@ -237,6 +237,13 @@ func (w *c31Worker) reset(cs *c31Case) *SampleBuilder {
 	sb.maxLate = cs.MaxLate
 	sb.depacketizer = c31Depack{}
 	sb.sampleRate = c31SampleRate
+	// the application recycles a packet's buffer as soon as the builder releases it (that is what the
+	// release handler is for): a sample must not share memory with a released packet
+	sb.packetReleaseHandler = func(p *rtp.Packet) {
+		for i := range p.Payload {
+			p.Payload[i] = 0xEE
+		}
+	}
 	if cs.DelayMs > 0 {
 		WithMaxTimeDelay(time.Duration(cs.DelayMs) * time.Millisecond)(sb)
 	}
